@@ -39,11 +39,13 @@ def spellings_html(s, rnd):
             return "&#%010d;" % o
         if mode == "hex0":
             return "&#x%09X;" % o
+        if mode == "hexX":          # (HTML: `&#x` or `&#X`)
+            return "&#X%x;" % o
         if mode == "named":
             return {"<": "&lt;", ">": "&gt;", "&": "&amp;", '"': "&quot;", "'": "&apos;", "\xa0": "&nbsp;", "\u00bd": "&frac12;", "\u00b2": "&sup2;",
                     "\u2234": "&there4;", "\u2591": "&blk14;"}.get(ch, "&#%d;" % o)
     out = {}
-    for mode in ("raw", "dec", "hex", "named", "dec0", "hex0"):
+    for mode in ("raw", "dec", "hex", "named", "dec0", "hex0", "hexX"):
         t = "".join(esc(c, mode) for c in s)
         out[mode] = t
     return out
